@@ -786,4 +786,326 @@ theorem emitAlt_refs (cfg : Cfg) : ∀ (cs : List GoNode) (a fin : Nat) (tb : Ta
         exact ⟨i, by simp only [List.mem_append]; exact Or.inr hi, hr⟩
 end
 
+/-! ## the groups the translated pattern reads back are groups the tree reads back -/
+
+theorem refsOf_nest (f : Pat → Pat → Pat) (u : Pat) (hf : ∀ a b, refsOf (f a b) = refsOf a ++ refsOf b) (hu : refsOf u = []) :
+    ∀ (ps : List Pat) (g : Nat), g ∈ refsOf (nest f u ps) → ∃ p ∈ ps, g ∈ refsOf p
+  | [], g, h => by simp [nest, hu] at h
+  | [x], g, h => ⟨x, by simp, by simpa [nest] using h⟩
+  | x :: y :: rest, g, h => by
+    simp only [nest, hf, List.mem_append] at h
+    rcases h with h | h
+    · exact ⟨x, by simp, h⟩
+    · obtain ⟨p, hp, hg⟩ := refsOf_nest f u hf hu (y :: rest) g h
+      exact ⟨p, List.mem_cons_of_mem _ hp, hg⟩
+
+theorem refsOf_loopPat_chr (t : Nat) (m n : Int) (c : Spec.Pred) : refsOf (loopPat t m n (.chr c)) = [] := by
+  unfold loopPat; split <;> rfl
+
+theorem refsOf_bare {X : TP} {t : Nat} {p : Pat} (h : bareToPat X t = some p) : refsOf p = [] := by
+  unfold bareToPat at h
+  repeat' split at h
+  all_goals first
+    | (cases h; rfl)
+    | skip
+  all_goals (cases h)
+
+mutual
+theorem toPat_refs (X : TP) : ∀ (n : GoNode) (d : Bool) (p : Pat), toPat X d n = some p →
+    ∀ g ∈ refsOf p, (g : Int) ∈ treeRefs n
+  | .empty, d, p, h, g, hg => by simp only [toPat, Option.some.injEq] at h; subst h; simp [refsOf] at hg
+  | .bare t, d, p, h, g, hg => by simp only [toPat] at h; rw [refsOf_bare h] at hg; cases hg
+  | .char t rtl ci ch, d, p, h, g, hg => by
+    simp only [toPat] at h
+    repeat' split at h
+    all_goals first
+      | (cases h; simp [refsOf] at hg)
+      | cases h
+  | .set rtl ci s, d, p, h, g, hg => by
+    simp only [toPat] at h
+    split at h
+    · cases hr : X.rd s with
+      | none => simp [hr] at h
+      | some c => simp only [hr, Option.map_some, Option.some.injEq] at h; subst h; simp [refsOf] at hg
+    · cases h
+  | .multi rtl ci s, d, p, h, g, hg => by
+    simp only [toPat] at h
+    split at h
+    · simp only [Option.some.injEq] at h; subst h
+      obtain ⟨q, hq, hgq⟩ := refsOf_nest Pat.seq Pat.empty (fun _ _ => rfl) rfl _ g hg
+      simp only [List.mem_map] at hq
+      obtain ⟨r, _, rfl⟩ := hq
+      simp [refsOf] at hgq
+    · cases h
+  | .ref rtl ci m, d, p, h, g, hg => by
+    simp only [toPat] at h
+    split at h
+    · rename_i hc
+      simp only [Bool.and_eq_true, decide_eq_true_eq] at hc
+      simp only [Option.some.injEq] at h; subst h
+      simp only [refsOf, List.mem_singleton] at hg
+      subst hg
+      simp only [treeRefs, List.mem_singleton]
+      exact Int.toNat_of_nonneg hc.2
+    · cases h
+  | .charloop t rtl ci ch m n, d, p, h, g, hg => by
+    simp only [toPat] at h
+    split at h
+    · simp only [Option.some.injEq] at h; subst h; rw [refsOf_loopPat_chr] at hg; cases hg
+    · cases h
+  | .setloop t rtl ci s m n, d, p, h, g, hg => by
+    simp only [toPat] at h
+    split at h
+    · cases hr : X.rd s with
+      | none => simp [hr] at h
+      | some c =>
+        simp only [hr, Option.map_some, Option.some.injEq] at h; subst h; rw [refsOf_loopPat_chr] at hg; cases hg
+    · cases h
+  | .concat cs, d, p, h, g, hg => by
+    simp only [toPat] at h
+    cases hl : toPatList X d cs with
+    | none => simp [hl] at h
+    | some ps =>
+      simp only [hl, Option.map_some, Option.some.injEq] at h
+      subst h
+      obtain ⟨q, hq, hgq⟩ := refsOf_nest Pat.seq Pat.empty (fun _ _ => rfl) rfl _ g hg
+      have hq' : q ∈ ps := by cases d <;> simpa using hq
+      simp only [treeRefs]
+      exact toPatList_refs X cs d ps hl q hq' g hgq
+  | .alt cs, d, p, h, g, hg => by
+    simp only [toPat] at h
+    cases hl : toPatList X d cs with
+    | none => simp [hl] at h
+    | some ps =>
+      simp only [hl, Option.map_some, Option.some.injEq] at h
+      subst h
+      obtain ⟨q, hq, hgq⟩ := refsOf_nest Pat.alt Pat.nothing (fun _ _ => rfl) rfl _ g hg
+      simp only [treeRefs]
+      exact toPatList_refs X cs d ps hl q hq g hgq
+  | .loop lzy m n c, d, p, h, g, hg => by
+    simp only [toPat] at h
+    cases hc : toPat X d c with
+    | none => simp [hc] at h
+    | some b =>
+      simp only [hc, Option.map_some, Option.some.injEq] at h
+      subst h
+      simp only [treeRefs]
+      exact toPat_refs X c d b hc g (by simpa [refsOf] using hg)
+  | .capture m n c, d, p, h, g, hg => by
+    simp only [toPat] at h
+    split at h
+    · cases hc : toPat X d c with
+      | none => simp [hc] at h
+      | some b =>
+        simp only [hc, Option.map_some, Option.some.injEq] at h
+        subst h
+        simp only [treeRefs]
+        exact toPat_refs X c d b hc g (by simpa [refsOf] using hg)
+    · cases h
+  | .group c, d, p, h, g, hg => by
+    simp only [toPat] at h
+    simp only [treeRefs]
+    exact toPat_refs X c d p h g hg
+  | .poslook c, d, p, h, g, hg => by
+    simp only [toPat] at h
+    cases hd : lookDir c with
+    | none => simp [hd] at h
+    | some b =>
+      simp only [hd] at h
+      cases hc : toPat X b c with
+      | none => simp [hc] at h
+      | some q =>
+        simp only [hc, Option.map_some, Option.some.injEq] at h
+        subst h
+        simp only [treeRefs]
+        exact toPat_refs X c b q hc g (by simpa [refsOf] using hg)
+  | .neglook c, d, p, h, g, hg => by
+    simp only [toPat] at h
+    cases hd : lookDir c with
+    | none => simp [hd] at h
+    | some b =>
+      simp only [hd] at h
+      cases hc : toPat X b c with
+      | none => simp [hc] at h
+      | some q =>
+        simp only [hc, Option.map_some, Option.some.injEq] at h
+        subst h
+        simp only [treeRefs]
+        exact toPat_refs X c b q hc g (by simpa [refsOf] using hg)
+  | .atomic c, d, p, h, g, hg => by
+    simp only [toPat] at h
+    cases hc : toPat X d c with
+    | none => simp [hc] at h
+    | some b =>
+      simp only [hc, Option.map_some, Option.some.injEq] at h
+      subst h
+      simp only [treeRefs]
+      exact toPat_refs X c d b hc g (by simpa [refsOf] using hg)
+  | .backrefcond1 m y, d, p, h, g, hg => by
+    simp only [toPat] at h
+    split at h
+    · rename_i hm
+      cases hy : toPat X d y with
+      | none => simp [hy] at h
+      | some b =>
+        simp only [hy, Option.map_some, Option.some.injEq] at h
+        subst h
+        simp only [refsOf, List.append_nil, List.mem_cons] at hg
+        simp only [treeRefs, List.mem_cons]
+        rcases hg with rfl | hg
+        · exact Or.inl (Int.toNat_of_nonneg hm)
+        · exact Or.inr (toPat_refs X y d b hy g hg)
+    · cases h
+  | .backrefcond2 m y n, d, p, h, g, hg => by
+    simp only [toPat] at h
+    split at h
+    · rename_i hm
+      cases hy : toPat X d y with
+      | none => simp [hy] at h
+      | some b =>
+        cases hn : toPat X d n with
+        | none => simp [hy, hn] at h
+        | some b2 =>
+          simp only [hy, hn, Option.some.injEq] at h
+          subst h
+          simp only [refsOf, List.mem_cons, List.mem_append] at hg
+          simp only [treeRefs, List.mem_cons, List.mem_append]
+          rcases hg with rfl | hg | hg
+          · exact Or.inl (Int.toNat_of_nonneg hm)
+          · exact Or.inr (Or.inl (toPat_refs X y d b hy g hg))
+          · exact Or.inr (Or.inr (toPat_refs X n d b2 hn g hg))
+    · cases h
+  | .exprcond2 c y, d, p, h, g, hg => by
+    simp only [toPat] at h
+    cases hc : toPat X d c with
+    | none => simp [hc] at h
+    | some b =>
+      cases hy : toPat X d y with
+      | none => simp [hc, hy] at h
+      | some b2 =>
+        simp only [hc, hy, Option.some.injEq] at h
+        subst h
+        simp only [refsOf, List.append_nil, List.mem_append] at hg
+        simp only [treeRefs, List.mem_append]
+        rcases hg with hg | hg
+        · exact Or.inl (toPat_refs X c d b hc g hg)
+        · exact Or.inr (toPat_refs X y d b2 hy g hg)
+  | .exprcond3 c y n, d, p, h, g, hg => by
+    simp only [toPat] at h
+    cases hc : toPat X d c with
+    | none => simp [hc] at h
+    | some b =>
+      cases hy : toPat X d y with
+      | none => simp [hc, hy] at h
+      | some b2 =>
+        cases hn : toPat X d n with
+        | none => simp [hc, hy, hn] at h
+        | some b3 =>
+          simp only [hc, hy, hn, Option.some.injEq] at h
+          subst h
+          simp only [refsOf, List.mem_append] at hg
+          simp only [treeRefs, List.mem_append]
+          rcases hg with hg | hg | hg
+          · exact Or.inl (toPat_refs X c d b hc g hg)
+          · exact Or.inr (Or.inl (toPat_refs X y d b2 hy g hg))
+          · exact Or.inr (Or.inr (toPat_refs X n d b3 hn g hg))
+  | .other _, d, p, h, _, _ => by simp [toPat] at h
+theorem toPatList_refs (X : TP) : ∀ (cs : List GoNode) (d : Bool) (ps : List Pat), toPatList X d cs = some ps →
+    ∀ q ∈ ps, ∀ g ∈ refsOf q, (g : Int) ∈ treeRefsList cs
+  | [], d, ps, h, q, hq, _, _ => by simp only [toPatList, Option.some.injEq] at h; subst h; cases hq
+  | c :: cs, d, ps, h, q, hq, g, hg => by
+    simp only [toPatList] at h
+    cases hc : toPat X d c with
+    | none => simp [hc] at h
+    | some b =>
+      cases hl : toPatList X d cs with
+      | none => simp [hc, hl] at h
+      | some bs =>
+        simp only [hc, hl, Option.some.injEq] at h
+        subst h
+        simp only [treeRefsList, List.mem_append]
+        rcases List.mem_cons.1 hq with rfl | hq
+        · exact Or.inl (toPat_refs X c d q hc g hg)
+        · exact Or.inr (toPatList_refs X cs d bs hl q hq g hg)
+end
+
+/-! ## the second writer keeps what the pattern reads back -/
+
+theorem init_getD_zero (N : Nat) (h : 0 < N) : ((List.replicate N false).set 0 true).getD 0 false = true := by
+  cases N with
+  | zero => omega
+  | succ k => simp [List.replicate_succ]
+
+/-- `CaptureSlotInUse` has `Capsize` entries, entry 0 is set, and so is the entry of every slot a `Ref`/`Testref` of the
+    main program names -/
+theorem slotsInUse_facts (ti : TreeInfo) (t : GoNode) (hok : t.ok = true)
+    (hcaps : capsOk (mainCfg ti) (capsize ti) t = true) :
+    (Writer.slotsInUse ti t).length = capsize ti ∧
+    (0 < capsize ti → (Writer.slotsInUse ti t).getD 0 false = true) ∧
+    ∀ m ∈ treeRefs t, 0 ≤ mapCapnum (mainCfg ti) m ∧ mapCapnum (mainCfg ti) m < capsize ti ∧
+      (Writer.slotsInUse ti t).getD (mapCapnum (mainCfg ti) m).toNat false = true := by
+  have hloc := codeFromTree_local (mainCfg ti) (capsize ti) t hok hcaps
+  have hall : ∀ i ∈ mainCode ti t, i.arityOk = true := by
+    intro i hi
+    have := hloc i hi
+    simp only [Instr.localOk, Bool.and_eq_true] at this
+    exact this.1.1.1.1
+  have hs : Writer.slotsInUse ti t = (mainCode ti t).foldl markInstr ((List.replicate (capsize ti) false).set 0 true) :=
+    captureSlotsInUse_flatten _ _ hall
+  have hlen : (Writer.slotsInUse ti t).length = capsize ti := by
+    rw [hs, foldl_markInstr_length]; simp
+  refine ⟨hlen, ?_, ?_⟩
+  · intro h; rw [hs]; exact foldl_markInstr_mono _ _ 0 (init_getD_zero _ h)
+  · intro m hm
+    obtain ⟨i, hi, hr⟩ := emitNode_refs (mainCfg ti) t 2 ⟨[], []⟩ m hm
+    have himem : i ∈ mainCode ti t := by
+      simp only [mainCode, codeFromTree, List.mem_append]
+      exact Or.inl (Or.inr hi)
+    have hl := hloc i himem
+    have hrange : inRange i.args[0]? (capsize ti) = true := by
+      simp only [Instr.localOk, Bool.and_eq_true] at hl
+      have h4 := hl.1.2
+      have hop : (i.opcode == opRef || i.opcode == opTestref) = true := by
+        rcases hr.1 with e | e <;> simp [e]
+      simpa [hop] using h4
+    rw [hr.2] at hrange
+    simp only [List.getElem?_cons_zero, inRange, Bool.and_eq_true, decide_eq_true_eq] at hrange
+    refine ⟨hrange.1, hrange.2, ?_⟩
+    rw [hs]
+    exact foldl_markInstr_marks _ _ i _ himem hr hrange.1 (by simpa using hrange.2)
+
+theorem emitCapture_of (cfg : Cfg) (q : List Bool) (m : Int) (hq : cfg.quick = some q) (h0 : 0 ≤ mapCapnum cfg m)
+    (h : mapCapnum cfg m ≥ q.length ∨ q.getD (mapCapnum cfg m).toNat false = true) : emitCapture cfg m (-1) = true := by
+  unfold emitCapture
+  rw [hq]
+  simp only [mapCapnum_neg_one, bne_self_eq_false, Bool.false_eq_true, if_false, Bool.and_eq_true, Bool.or_eq_true,
+    decide_eq_true_eq]
+  exact ⟨h0, h⟩
+
+/-- the second writer keeps the root capture -/
+theorem quickKeep_zero (ti : TreeInfo) (t : GoNode) (hok : t.ok = true) (hcaps : capsOk (mainCfg ti) (capsize ti) t = true)
+    (h0 : mapCapnum (mainCfg ti) 0 = 0) : emitCapture (quickCfg ti t) 0 (-1) = true := by
+  obtain ⟨hlen, hz, _⟩ := slotsInUse_facts ti t hok hcaps
+  have h0' : mapCapnum (quickCfg ti t) 0 = 0 := h0
+  apply emitCapture_of _ (Writer.slotsInUse ti t) 0 rfl
+  · rw [h0']; omega
+  · rw [h0']
+    by_cases hc : 0 < capsize ti
+    · exact Or.inr (hz hc)
+    · left; omega
+
+/-- **`captureSlotsInUse` selects enough, on the emitted code**: every group the translated pattern reads back
+    (`\g`, `(?(g)…)`) keeps its mark pair in the bool-only program -/
+theorem quickKeep_refs (ti : TreeInfo) (t : GoNode) (X : TP) (d : Bool) (p : Pat) (hok : t.ok = true)
+    (hcaps : capsOk (mainCfg ti) (capsize ti) t = true) (hp : toPat X d t = some p) :
+    ∀ g ∈ refsOf p, quickKeep ti t g = true := by
+  intro g hg
+  obtain ⟨hlen, _, hm⟩ := slotsInUse_facts ti t hok hcaps
+  obtain ⟨h1, h2, h3⟩ := hm (g : Int) (toPat_refs X t d p hp g hg)
+  have hq : mapCapnum (quickCfg ti t) (g : Int) = mapCapnum (mainCfg ti) (g : Int) := rfl
+  show emitCapture (quickCfg ti t) (g : Int) (-1) = true
+  apply emitCapture_of _ (Writer.slotsInUse ti t) (g : Int) rfl
+  · rw [hq]; exact h1
+  · rw [hq]; exact Or.inr h3
+
 end RegexVerif.Compile
